@@ -15,22 +15,22 @@ CLAIMS = {
  "C01": ("path-partitioned SSA dataflow: nil/bounds/assert/panic-site/lock-pairing/lock-order/no-block rules over call-graph-reachable handlers",
          "Every first-party function reachable from the datagram handlers is explored on all abstract paths; each dereference, index, assertion, map write, panic site, lock acquisition, loop and send site is an obligation that must be discharged. Shows absence of first-party panics/blocking/held locks of the modelled classes for every datagram and history; says nothing about dependencies.",
          "Does not decide panics or blocking inside dependencies, nor resource exhaustion.", "4 C01"),
- "C11": ("decision-table comparison (three-valued, over per-path branch facts) on HandleMsg4 + who-may-write scan of DHCPv4 identity fields",
+ "C11": ("decision-table comparison (three-valued, over per-path branch facts) on HandleMsg4 + who-may-write scan of DHCPv4 identity fields + receive-buffer size constant + provenance of the listener's handler list",
          "Every abstract state reaching a send site must satisfy the request filter and every silent exit must falsify it; the request-type to reply-type map and the stub construction are extracted from SSA and compared with the frozen table; codec facts are re-derived. Decides the server's own filter/type-map logic for all opcodes and types; the codec's encoding is trusted.",
          "Codec encoding and third-party plugins are not decided.", "4 C11"),
- "C12": ("decision-table comparison on HandleMsg6 (type map, filter, relay re-encapsulation, destination, interface pinning)",
+ "C12": ("decision-table comparison on HandleMsg6 (type map, filter, relay re-encapsulation, destination, interface pinning) + receive-buffer size constant + provenance of the listener's handler list",
          "The (message type, rapid commit) to constructor map, the send filter, the relay/direct split, the destination and the pinning condition are extracted from all abstract states and compared with the frozen RFC table, including non-vacuity of each row.",
          "Per-layer relay mirroring and xid/client-id echo are the codec constructors' job (trusted).", "4 C12"),
  "C13": ("per-iteration path exploration of LoadPlugins/parsePlugins, structural recognition of the dispatch loops, return-shape rule over all built-in handlers",
          "Shows on all abstract paths that loading appends exactly the configured, supported plugins in order and aborts on unknown/failed ones, that dispatch calls each handler once with (request, running response) until stop, that what is sent is the loop's exit value, and that built-in handlers return nil only with stop.",
          "Registry contents are run-time data.", "4 C13"),
- "C14": ("three-valued comparison of every abstract exit of the serverid handlers with the RFC 8415 s16 matrix / the DHCPv4 two-place rule; init-before-use",
+ "C14": ("three-valued comparison of every abstract exit of the serverid handlers with the RFC 8415 s16 matrix / the DHCPv4 two-place rule; init-before-use; who-may-write scan of the server identity (siaddr, option 54, DHCPv6 Server Identifier)",
          "Every drop/accept exit is classified and compared with the frozen matrix over Server-ID presence, type family and DUID equality; DHCPv4 accepts must have examined both siaddr and option 54; accepts stamp this server's identifier; identifiers are initialised by every successful setup.",
          "DUID equality semantics are the codec's.", "4 C14"),
  "C15": ("decision-table comparison of destination/port/L2/pinning at the send sites of HandleMsg4; frame-field provenance in sendEthernet; listener setup must-pass rule",
          "In every abstract state the (address expression, port, link-level flag, control message) chosen equals the RFC 2131 s4.1 row selected by giaddr/NAK/ciaddr/broadcast flag; all five rows are realised; L2 frame fields and listener interface knowledge are checked.",
          "Kernel routing and gopacket serialisation are not decided.", "4 C15"),
- "C17": ("per-emission-site entitlement gates (three-valued over branch facts), option-code derivation from codec constructors, idempotence and provenance rules",
+ "C17": ("per-emission-site entitlement gates (three-valued over branch facts, with the codec's absent/empty request-list behaviour re-derived), option-code derivation from codec constructors, idempotence and provenance rules, loader argument provenance, retention analysis of pooled option objects",
          "Each option emission of each option plugin is matched with its row of the frozen table: derived option code, entitlement gate true in every abstract state, entitled clients always served, at-most-once, value from the configured global, specified stop flag.",
          "Wire encoding and value equality beyond provenance are not decided.", "4 C17"),
  "C02": ("path rules on the range handler anchored on Recordsv4/allocator/yiaddr: lookup-before-allocate, insert-before-reply, exhaustion, provenance, lease time; per-iteration restart rule; lock discipline",
@@ -39,7 +39,7 @@ CLAIMS = {
  "C03": ("writer/reader agreement tables extracted from SQL constants and SSA (columns, Go types, codec inverse pairs with domains, key form); must-pass rules for persistence and expiry provenance",
          "Decides that every row the handler can write is accepted by the loader column by column (including the hardware-address codec's domain), that both sides key the map identically, that persistence precedes every reply and that the stored expiry is the promised one.",
          "sqlite affinity/durability and timing are not decided.", "4 C03"),
- "C04": ("typestate 'bit proved clear' per abstract state (phi-merged indices proved per incoming path), mutex-held dataflow, same-index provenance at returns, sibling agreement",
+ "C04": ("typestate 'bit proved clear' per abstract state (phi-merged indices proved per incoming path), mutex-held dataflow, same-index provenance at returns, sibling agreement, index/prefix conversion-pair agreement, may-alias analysis of writes through pool geometry and of the returned storage, inductive check of a first-free search cursor",
          "For every implementation of allocators.Allocator: every bitmap operation under the exclusive mutex, every Set justified by Test==false / NextClear ok on the same index inside the same critical section, every success return converts exactly the bit set. This is the structural necessary condition for disjoint outstanding blocks under all histories and schedules.",
          "Injectivity of index to address is arithmetic (C05/C20); bitset correctness trusted.", "4 C04"),
  "C05": ("term extraction + exact branch-fact comparison for the linear IPv4 maps (13 weak orderings collapse to two comparisons), mask-length decision table, constructor size terms",
@@ -57,10 +57,10 @@ CLAIMS = {
  "C09": ("accumulator shape check on SSA phi/append, reuse-before-allocate and marking rules per iteration, samePrefix exit comparison",
          "The value recorded for a client accumulates all new leases on top of the known ones; new blocks only for hints no known lease satisfied (per-hint bitmap, same index); handing back a lease marks hint and lease; reuse only for equal or empty hints; samePrefix compares address and mask.",
          "Recognition of the hint-less placeholder and equality of prefix values across messages are value properties, not decided.", "4 C09"),
- "C10": ("who-writes/who-reads analysis of the served table, swap-on-success rule, per-iteration line grammar on both sibling loaders, lookup-key agreement, watcher loop shape",
+ "C10": ("who-writes/who-reads analysis of the served table, swap-on-success rule, per-iteration line grammar on both sibling loaders, lookup-key agreement, watcher loop shape, provenance of the loaded/watched path (the configured argument)",
          "Decides the loaders' line grammar and all-or-nothing shape, the swap discipline, key agreement between loaders and handlers, exact handler outcomes for listed/unlisted clients, and that the watcher never stops. Reports the shared global table as a known finding.",
          "stdlib address grammars and fsnotify delivery are not decided.", "4 C10"),
- "C16": ("GUARDED-BY table with mutex-held dataflow (caller-context for helpers), cross-critical-section dependence (facts and values), global write reachability, buffer typestate, lock pairing/order",
+ "C16": ("GUARDED-BY table with mutex-held dataflow (caller-context for helpers), cross-critical-section dependence (facts, values and keys through containers), global write reachability, buffer typestate, retention analysis of objects given back to a sync.Pool, fresh-object rule for published maps, lock pairing/order",
          "Every access to guarded state holds its mutex in the required mode on every abstract path; no guarded write depends on facts or values from another critical section; handler-read globals are never written concurrently; receive buffers are released once after parsing. Lock discipline implies race freedom of the guarded state and serialisability of each lease decision.",
          "Codec aliasing of the receive buffer, races in dependencies and heap aliasing of shared option objects are not decided.", "4 C16"),
  "C18": ("C01 safety rules on the config scope, constant propagation of the protocol version, per-version exit tables for getListenAddress, per-iteration rules for parseListen, shape rules for Load/getPlugins/parseConfig/parsePlugins",
